@@ -280,6 +280,85 @@ def boot_info_csum(params):
     return _finish(r, rep)
 
 
+def boot_info_csum_len(params):
+    """PyCdlib._calculate_eltorito_boot_info_table_csum for a file of EXACTLY data_len bytes (any length, multiple of 4): the real function
+    reads logical blocks and zero-pads the last one; the result must be the sum of ALL 32-bit LE words of the file from offset 64 on, mod 2^32.
+    A handful of word positions are symbolic (block starts/ends, around offset 64, the tail words), the others are zero: the additions are
+    position-independent, so which words are free does not matter for a counting/offset error."""
+    from pycdlib import pycdlib as pm
+    data_len = int(params['data_len'])
+    assert data_len % 4 == 0
+    nwords = data_len // 4
+    free = set()
+    for base in range(0, nwords, 512):
+        last = min(base + 512, nwords) - 1
+        free.update({base, base + 1, last, max(base, last - 1)})
+    free.update({15, 16, 17, nwords - 1})
+    free = {i for i in free if 0 <= i < nwords}
+
+    class Block:
+        def __init__(self, words):
+            self.words = words
+
+        def ljust(self, n, fill):
+            return Block(self.words + [0] * (n // 4 - len(self.words)))
+
+        def __len__(self):
+            return 4 * len(self.words)
+
+        def __getitem__(self, sl):
+            return self
+
+    class FP:
+        def __init__(self, words):
+            self.words = words
+            self.pos = 0
+
+        def read(self, n):
+            w = self.words[self.pos // 4:(self.pos + n) // 4]
+            self.pos += n
+            return Block(w)
+
+    class FakeStruct:
+        @staticmethod
+        def unpack_from(fmt, block, off):
+            assert fmt == '<L'
+            return (block.words[off // 4],)
+    saved = pm.struct
+    pm.struct = FakeStruct
+    try:
+        def mk():
+            return ([bv('w%d' % i, 32) if i in free else 0 for i in range(nwords)],)
+
+        def fn(words):
+            obj = pm.PyCdlib.__new__(pm.PyCdlib)
+            obj.logical_block_size = 2048
+            return pm.PyCdlib._calculate_eltorito_boot_info_table_csum(obj, FP(words), data_len)
+
+        def prop(res, a):
+            tot = z3.BitVecVal(0, W)
+            for i, w in enumerate(a[0]):
+                if i < 16:
+                    continue
+                tot = (tot + lift(w)) & 0xffffffff
+            return lift(res) == tot
+        r = explore(fn, mk, prop, xcheck=1)
+    finally:
+        pm.struct = saved
+    rep = None
+    if r['verdict'] == 'refuted':
+        import io
+        import struct
+        m = r['model']
+        data = b''.join(struct.pack('<L', m.eval(z3.BitVec('w%d' % i, 32), True).as_long() if i in free else 0) for i in range(nwords))
+        obj = pm.PyCdlib.__new__(pm.PyCdlib)
+        obj.logical_block_size = 2048
+        got = pm.PyCdlib._calculate_eltorito_boot_info_table_csum(obj, io.BytesIO(data), len(data))
+        want = sum(struct.unpack_from('<L', data, o)[0] for o in range(64, len(data), 4)) & 0xffffffff
+        rep = {'outcome': 'violates' if got != want else 'holds', 'data_len': data_len, 'got': got, 'want': want}
+    return _finish(r, rep)
+
+
 # ------------------------------------------------------------------ swab
 
 def swab(params):
